@@ -1,29 +1,44 @@
 (* C03: round trip, cross-target and cross-option agreement of generated codecs.
    Statements only.  The observable of the generated code of target tg under option set o is
        obs_ser tg o t v buf cap   /   obs_des tg o t bits                                  (Codec/ObsC03.v)
-   = the code-shaped walker (Codec/Walker.v; Codec/PyWalker.v for the Python serializer) run over the SHIPPED primitive models
-   (C: nunavutSetUxx / nunavutGetU8..64 in the rendering selected by opt_little; C++: bitspan members, zero runs by setZeros or
-   setUxx as selected by opt_setzeros; Python: Serializer / Deserializer with the explicit leaf py_enc_prim - clamp, two's
-   complement, mask, struct.pack('<e') = round half to even), wrapped in the epilogue assertions when opt_asserts is set (Python:
-   always).  None of these definitions mentions the wire specification.  Every equality below is derived (Codec/ObsC03Thm.v) from
-   the instance refinement theorems c_walk_*_refines / cpp_walk_*_refines / py_walk_*_refines under their side conditions:
-       ser_side tg t v buf cap  :=  C, C++: buf_ok buf cap (|buf| = 8*cap < 2^64) /\ storage_ok t v (v fits the generated storage types)
-                                    Python: bmax t <= 8*cap (the Serializer's own buffer suffices)
-       input_ok t bits          :=  whole bytes, |bits| + tsz t < 2^64.
+   = the TARGET-SHAPED walker run over the SHIPPED primitive models:
+       C       WalkerX.walk_ser_x / WalkerXDes.walk_des_x with WalkerSafe.std_cfg (is_little o) - the C templates INCLUDING the paths
+               that target_endianness = little switches (memmove of ceil(w/8) storage bytes; one nunavutCopyBits / nunavutGetBits call
+               for arrays of bool / zero-cost primitives, decided by the TRANSLATED is_zero_cost_primitive of Generated/Gen_C01.v) -
+               over c_prims (is_little o), c_copy, c_getl (Prims/CPrims.v);
+       C++     CppWalker.cpp_walk_ser / cpp_walk_des (bitspan sub-spans, setZeros padding, tag-first unions) over cppw_prims;
+       Python  PyWalker.py_walk_ser over py_pyprims with the explicit leaf py_enc_prim (clamp, two's complement, mask,
+               struct.pack('<e') = round half to even); PyDesWalker.py_walk_des over pyd_prims (value only: no consumed size);
+   wrapped (C, C++) in the build gate of omit_float_serialization_support and in the epilogue assertions when
+   enable_serialization_asserts is set (Python: always).  None of these definitions mentions the wire specification.  Every equality
+   below is derived (Codec/ObsC03Thm.v) from the refinement theorems c_walk_ser_x_refines / c_walk_des_x_refines /
+   cppw_walk_{ser,des}_refines / py_walk_ser_refines / pyd_walk_des_refines_sa under their side conditions:
+       ser_side tg o t v buf cap :=  C, C++: buildable tg o t /\ buf_ok buf cap (|buf| = 8*cap < 2^64) /\ storage_ok t v
+                                     Python: bmax t <= 8*cap (the Serializer's own buffer suffices)
+       input_ok t bits           :=  whole bytes, |bits| + tsz t + 8 < 2^64
+       buildable tg o t          :=  C, C++: not (omit_float_serialization_support /\ t has a float field).
+   OPTIONS (Spec/TargetsC03.v `c_option_coverage` / `cpp_option_coverage`, tied to the regenerated properties.yaml list below):
+     proved here        target_endianness (C), enable_serialization_asserts (C, C++; epilogue assertions), omit_float_serialization_support
+                        (C, C++; gate + independence where the program exists)
+     pairwise runs only enable_override_variable_array_capacity (C, C++), target_endianness (C++ support rendering), C++ std / std_flavor /
+                        allocator_* / ctor_convention (c++14, c++17, c++20, c++17-pmr builds)
+     not exercised      variable_array_type_include / _template / _constructor_args (only the default containers are built); cetl++14-17
+     no codec influence cast_format.
    Superseded first-round statements: History/C03_history.v. *)
 From Verif Require Import Wire WireThm WireThmRt WireThmExt WireThmValid F16 TargetsC03 TargetPreThm WireThmC03.
-From Verif Require Import Walker RefineSerBits ObsC03 ObsC03Thm.
+From Verif Require Import Walker RefineSerBits ObsC03 ObsC03Thm ObsC03Tie.
 Local Open Scope nat_scope.
 
 (* ---- the observables are the specification: C and C++ of the value itself, Python of the value with float16 ties pre-rounded to
    even (target_pre, Spec/TargetPre.v; spec_ser tg t v cap = ser_spec t (target_pre tg t v) cap) ---- *)
 Theorem c03_obs_ser_is_spec : forall tg o u fs ext v buf cap, wf_ty (TComp u fs ext) = true ->
-  ser_side tg (TComp u fs ext) v buf cap ->
+  ser_side tg o (TComp u fs ext) v buf cap ->
   obs_ser tg o (TComp u fs ext) v buf cap = spec_ser tg (TComp u fs ext) v cap.
 Proof. exact obs_ser_is_spec. Qed.
 Print Assumptions c03_obs_ser_is_spec.
 
-Theorem c03_obs_des_is_spec : forall tg o t bits, wf_ty t = true -> input_ok t bits -> obs_des tg o t bits = des_spec t bits.
+Theorem c03_obs_des_is_spec : forall tg o t bits, wf_ty t = true -> buildable tg o t = true -> input_ok t bits ->
+  obs_des tg o t bits = spec_des tg t bits.
 Proof. exact obs_des_is_spec. Qed.
 Print Assumptions c03_obs_des_is_spec.
 
@@ -40,17 +55,18 @@ Print Assumptions c03_des_asserts_never_fire.
 (* ---- round trip through generated code: what target tg's serializer emitted (whatever follows in the buffer) is decoded by the
    deserializer of ANY target under ANY option set to the value after its cast-mode adjustment, consuming exactly those bytes ---- *)
 Theorem c03_roundtrip : forall tg tg' o o' u fs ext v buf cap b r, wf_ty (TComp u fs ext) = true ->
-  ser_side tg (TComp u fs ext) v buf cap -> obs_ser tg o (TComp u fs ext) v buf cap = Ok b ->
-  input_ok (TComp u fs ext) (b ++ r) ->
-  obs_des tg' o' (TComp u fs ext) (b ++ r) = Ok (cast_val (TComp u fs ext) (target_pre tg (TComp u fs ext) v), length b / 8).
+  ser_side tg o (TComp u fs ext) v buf cap -> obs_ser tg o (TComp u fs ext) v buf cap = Ok b ->
+  buildable tg' o' (TComp u fs ext) = true -> input_ok (TComp u fs ext) (b ++ r) ->
+  obs_des tg' o' (TComp u fs ext) (b ++ r) =
+    Ok (cast_val (TComp u fs ext) (target_pre tg (TComp u fs ext) v), consumed_of tg' (length b / 8)).
 Proof. exact obs_roundtrip. Qed.
 Print Assumptions c03_roundtrip.
 
 (* ---- serializing the deserialized value again yields the identical bytes (any option sets, any initial buffer contents) ---- *)
 Theorem c03_reser : forall tg o o' o'' u fs ext v buf buf' cap b v' k, wf_ty (TComp u fs ext) = true ->
-  ser_side tg (TComp u fs ext) v buf cap -> obs_ser tg o (TComp u fs ext) v buf cap = Ok b ->
-  input_ok (TComp u fs ext) b -> obs_des tg o' (TComp u fs ext) b = Ok (v', k) ->
-  (tg <> TgPy -> buf_ok buf' cap) ->
+  ser_side tg o (TComp u fs ext) v buf cap -> obs_ser tg o (TComp u fs ext) v buf cap = Ok b ->
+  buildable tg o' (TComp u fs ext) = true -> input_ok (TComp u fs ext) b -> obs_des tg o' (TComp u fs ext) b = Ok (v', k) ->
+  (tg <> TgPy -> buildable tg o'' (TComp u fs ext) = true /\ buf_ok buf' cap) ->
   obs_ser tg o'' (TComp u fs ext) v' buf' cap = Ok b.
 Proof. exact obs_reser. Qed.
 Print Assumptions c03_reser.
@@ -58,11 +74,12 @@ Print Assumptions c03_reser.
 (* ---- des . ser . des = des at the VALUE level through generated code of any three targets; the excluded trigger is a decoded
    float16 NaN with a non-canonical payload (boolean predicate f16_nans_canonical) ---- *)
 Theorem c03_des_ser_des_partial : forall tg1 tg2 tg3 o1 o2 o3 u fs ext bits v k buf cap b, wf_ty (TComp u fs ext) = true ->
-  input_ok (TComp u fs ext) bits -> obs_des tg1 o1 (TComp u fs ext) bits = Ok (v, k) ->
+  buildable tg1 o1 (TComp u fs ext) = true -> input_ok (TComp u fs ext) bits -> obs_des tg1 o1 (TComp u fs ext) bits = Ok (v, k) ->
   f16_nans_canonical (TComp u fs ext) v = true ->
-  (tg2 <> TgPy -> buf_ok buf cap) -> (tg2 = TgPy -> bmax (TComp u fs ext) <= 8 * cap) ->
-  obs_ser tg2 o2 (TComp u fs ext) v buf cap = Ok b -> input_ok (TComp u fs ext) b ->
-  obs_des tg3 o3 (TComp u fs ext) b = Ok (v, length b / 8).
+  (tg2 <> TgPy -> buildable tg2 o2 (TComp u fs ext) = true /\ buf_ok buf cap) -> (tg2 = TgPy -> bmax (TComp u fs ext) <= 8 * cap) ->
+  obs_ser tg2 o2 (TComp u fs ext) v buf cap = Ok b ->
+  buildable tg3 o3 (TComp u fs ext) = true -> input_ok (TComp u fs ext) b ->
+  obs_des tg3 o3 (TComp u fs ext) b = Ok (v, consumed_of tg3 (length b / 8)).
 Proof. exact obs_des_ser_des. Qed.
 Print Assumptions c03_des_ser_des_partial.
 
@@ -77,7 +94,7 @@ Print Assumptions c03_des_ser_des_value_refuted.
 (* C and C++ (same float16 pack function) agree on EVERY storable value, ties included, under every pair of option sets and initial
    buffer contents *)
 Theorem c03_cross_target_ser_c_family : forall tg1 tg2 o1 o2 u fs ext v buf1 buf2 cap, tg1 <> TgPy -> tg2 <> TgPy ->
-  wf_ty (TComp u fs ext) = true -> buf_ok buf1 cap -> buf_ok buf2 cap -> storage_ok (TComp u fs ext) v = true ->
+  wf_ty (TComp u fs ext) = true -> ser_side tg1 o1 (TComp u fs ext) v buf1 cap -> ser_side tg2 o2 (TComp u fs ext) v buf2 cap ->
   obs_ser tg1 o1 (TComp u fs ext) v buf1 cap = obs_ser tg2 o2 (TComp u fs ext) v buf2 cap.
 Proof. exact cross_target_ser_c_family. Qed.
 Print Assumptions c03_cross_target_ser_c_family.
@@ -95,28 +112,77 @@ Print Assumptions c03_f16_tie_cross_target_refuted.
 (* the strongest true statement: any two targets, option sets and initial buffers give the same bytes (or the same error) whenever no
    float16 field of the value holds an exact rounding tie *)
 Theorem c03_cross_target_ser_partial : forall tg1 tg2 o1 o2 u fs ext v buf1 buf2 cap, wf_ty (TComp u fs ext) = true ->
-  ser_side tg1 (TComp u fs ext) v buf1 cap -> ser_side tg2 (TComp u fs ext) v buf2 cap ->
+  ser_side tg1 o1 (TComp u fs ext) v buf1 cap -> ser_side tg2 o2 (TComp u fs ext) v buf2 cap ->
   no_f16_tie (TComp u fs ext) v = true ->
   obs_ser tg1 o1 (TComp u fs ext) v buf1 cap = obs_ser tg2 o2 (TComp u fs ext) v buf2 cap.
 Proof. exact cross_target_ser. Qed.
 Print Assumptions c03_cross_target_ser_partial.
 
-Theorem c03_cross_target_des : forall tg1 tg2 o1 o2 t bits, wf_ty t = true -> input_ok t bits ->
-  obs_des tg1 o1 t bits = obs_des tg2 o2 t bits.
+(* decoded VALUES agree across all three targets; C and C++ also agree on the consumed size (Python reports none) *)
+Theorem c03_cross_target_des : forall tg1 tg2 o1 o2 t bits, wf_ty t = true -> buildable tg1 o1 t = true -> buildable tg2 o2 t = true ->
+  input_ok t bits -> dobs_val (obs_des tg1 o1 t bits) = dobs_val (obs_des tg2 o2 t bits).
 Proof. exact cross_target_des. Qed.
 Print Assumptions c03_cross_target_des.
 
-(* ---- options: endianness rendering, setZeros vs setUxx for zero runs, assertion generation (and the initial buffer content) ---- *)
+Theorem c03_cross_target_des_c_family : forall tg1 tg2 o1 o2 t bits, tg1 <> TgPy -> tg2 <> TgPy -> wf_ty t = true ->
+  buildable tg1 o1 t = true -> buildable tg2 o2 t = true -> input_ok t bits -> obs_des tg1 o1 t bits = obs_des tg2 o2 t bits.
+Proof. exact cross_target_des_c_family. Qed.
+Print Assumptions c03_cross_target_des_c_family.
+
+(* ---- options that reach the codec models: target_endianness (for C: the memmove and bulk-copy TEMPLATE paths and the support
+   rendering), enable_serialization_asserts, omit_float_serialization_support (wherever the program exists); and the initial buffer ---- *)
 Theorem c03_option_indep_ser : forall tg o1 o2 u fs ext v buf1 buf2 cap, wf_ty (TComp u fs ext) = true ->
-  ser_side tg (TComp u fs ext) v buf1 cap -> ser_side tg (TComp u fs ext) v buf2 cap ->
+  ser_side tg o1 (TComp u fs ext) v buf1 cap -> ser_side tg o2 (TComp u fs ext) v buf2 cap ->
   obs_ser tg o1 (TComp u fs ext) v buf1 cap = obs_ser tg o2 (TComp u fs ext) v buf2 cap.
 Proof. exact option_indep_ser. Qed.
 Print Assumptions c03_option_indep_ser.
 
-Theorem c03_option_indep_des : forall tg o1 o2 t bits, wf_ty t = true -> input_ok t bits ->
-  obs_des tg o1 t bits = obs_des tg o2 t bits.
-Proof. intros tg. exact (cross_target_des tg tg). Qed.
+Theorem c03_option_indep_des : forall tg o1 o2 t bits, wf_ty t = true -> buildable tg o1 t = true -> buildable tg o2 t = true ->
+  input_ok t bits -> obs_des tg o1 t bits = obs_des tg o2 t bits.
+Proof. exact option_indep_des. Qed.
 Print Assumptions c03_option_indep_des.
+
+Theorem c03_float_free_types_always_build : forall tg o t, uses_float t = false -> buildable tg o t = true.
+Proof. exact float_free_buildable. Qed.
+Print Assumptions c03_float_free_types_always_build.
+
+(* ---- SOURCE TIES (regenerated on every run by the translators `optguard`, `c01`, `codec_tpl`) ---- *)
+From Verif Require OptGuard Gen_OptGuard Gen_C01 GenC01Thm TplTieBase TplTieData Gen_CodecTpl TplTie.
+
+(* the option classification above lists exactly the language options properties.yaml declares, in file order *)
+Theorem c03_c_options_classified :
+  map (fun x => s2n (fst x)) c_option_coverage = map fst Gen_OptGuard.c_defaults.
+Proof. exact c_options_classified. Qed.
+Print Assumptions c03_c_options_classified.
+
+Theorem c03_cpp_options_classified :
+  map (fun x => s2n (fst x)) cpp_option_coverage = map fst Gen_OptGuard.cpp_defaults.
+Proof. exact cpp_options_classified. Qed.
+Print Assumptions c03_cpp_options_classified.
+
+(* which array path a C build takes is decided by nunavut.lang.c.is_zero_cost_primitive - TRANSLATED from the source on every run
+   (Generated/Gen_C01.v) and used by the C observable through WalkerSafe.bulk: it is true exactly on a little-endian target for
+   standard-width integers and float32/64 *)
+Theorem c03_zero_cost_rule : forall e t, Gen_C01.is_zero_cost_primitive e t = GenC01Thm.zero_cost_ref e t.
+Proof. exact GenC01Thm.zero_cost_exact. Qed.
+Print Assumptions c03_zero_cost_rule.
+
+(* the C array templates emit the bulk copy exactly for bool / zero-cost primitive elements, the element loop otherwise *)
+Theorem c03_c_array_paths : c_array_paths_statement.      (* spelled out in Codec/ObsC03Tie.v: nunavutCopyBits / nunavutGetBits emitted iff b || (p && z) *)
+Proof. exact TplTie.c_array_paths. Qed.
+Print Assumptions c03_c_array_paths.
+
+(* the macro structure of the C / C++ / Python codec templates, rescanned from the .j2 files, is the reviewed one the three
+   target-shaped walkers were written against: a template edit breaks C03's obligations until the walkers are reviewed *)
+Theorem c03_templates_match_walkers :
+  (Gen_CodecTpl.gen_c_ser_dispatch = TplTieData.walker_c_ser_dispatch /\ Gen_CodecTpl.gen_c_ser_macros = TplTieData.walker_c_ser_macros /\
+   Gen_CodecTpl.gen_c_des_dispatch = TplTieData.walker_c_des_dispatch /\ Gen_CodecTpl.gen_c_des_macros = TplTieData.walker_c_des_macros) /\
+  (Gen_CodecTpl.gen_cpp_ser_dispatch = TplTieData.walker_cpp_ser_dispatch /\ Gen_CodecTpl.gen_cpp_ser_macros = TplTieData.walker_cpp_ser_macros /\
+   Gen_CodecTpl.gen_cpp_des_dispatch = TplTieData.walker_cpp_des_dispatch /\ Gen_CodecTpl.gen_cpp_des_macros = TplTieData.walker_cpp_des_macros) /\
+  (Gen_CodecTpl.gen_py_ser_dispatch = TplTieData.walker_py_ser_dispatch /\ Gen_CodecTpl.gen_py_ser_macros = TplTieData.walker_py_ser_macros /\
+   Gen_CodecTpl.gen_py_des_dispatch = TplTieData.walker_py_des_dispatch /\ Gen_CodecTpl.gen_py_des_macros = TplTieData.walker_py_des_macros).
+Proof. exact (conj TplTie.c_templates_match_walker (conj TplTie.cpp_templates_match_walker TplTie.py_templates_match_walker)). Qed.
+Print Assumptions c03_templates_match_walkers.
 
 (* ---- supporting specification-level facts ---- *)
 (* the cast is idempotent on encodings (float16: pack (unpack h) = h on the image of pack, Prims/F16Thm.v) *)
@@ -165,18 +231,22 @@ Example c03_example_side_conditions :
   wf_ty ex_union = true /\ storage_ok ex_union ex_val = true /\ (bmax ex_union <=? 8 * 20) = true /\ no_f16_tie ex_union ex_val = false /\
   no_f16_tie ex_union (VUnion 2 (VArr [VFlt 1065357313%N; VFlt 0%N])) = true.
 Proof. vm_compute. repeat split; reflexivity. Qed.
-Example c03_example_roundtrip_c :      (* C serializer (little rendering, asserts on, 0xFF buffer), C++ deserializer *)
-  bind (obs_ser TgC (mk_options true false true) ex_union ex_val (repeat true 160) 20)
+Example c03_example_roundtrip_c :      (* C serializer (little: memmove paths, asserts on, 0xFF buffer), C++ deserializer *)
+  bind (obs_ser TgC (mk_options EndLittle false true) ex_union ex_val (repeat true 160) 20)
        (fun b => obs_des TgCpp default_options ex_union b)
-  = Ok (VUnion 1 (VStruct [VInt 7; VInt (-4096); VFlt 1065361408%N]), 9).
+  = Ok (VUnion 1 (VStruct [VInt 7; VInt (-4096); VFlt 1065361408%N]), Some 9).
 Proof. vm_compute. reflexivity. Qed.
 Example c03_example_roundtrip_py :     (* the same value through the Python serializer: the tie goes to even, 0x3C00 = 1.0 *)
   bind (obs_ser TgPy default_options ex_union ex_val [] 20) (fun b => obs_des TgPy default_options ex_union b)
-  = Ok (VUnion 1 (VStruct [VInt 7; VInt (-4096); VFlt 1065353216%N]), 9).
+  = Ok (VUnion 1 (VStruct [VInt 7; VInt (-4096); VFlt 1065353216%N]), None).
 Proof. vm_compute. reflexivity. Qed.
-Example c03_example_options :
-  let t := TComp false [TPrim (PU 3 true); TPrim (PVoid 7); TPrim (PS 13 true); TPrim (PF 16 false)] None in
-  let v := VStruct [VInt 9; VVoid; VInt (-5000); VFlt 1065357313%N] in
-  obs_ser TgC (mk_options true false true) t v (repeat true 40) 5 = obs_ser TgCpp (mk_options false true false) t v (repeat false 40) 5 /\
-  obs_ser TgCpp (mk_options false false true) t v (repeat true 40) 5 = obs_ser TgPy default_options t v [] 5.
-Proof. vm_compute. split; reflexivity. Qed.
+Example c03_example_options :          (* memmove (truncated uint13 = 0xFFFF, aligned) and bulk (uint16[2]) paths vs. portable paths vs. C++ vs. Python *)
+  let t := TComp false [TPrim (PU 13 false); TPrim (PU 3 true); TFix (TPrim (PU 16 true)) 2; TPrim (PVoid 7); TPrim (PS 13 true);
+                        TPrim (PF 16 false)] None in
+  let v := VStruct [VInt 65535; VInt 9; VArr [VInt 258; VInt 772]; VVoid; VInt (-5000); VFlt 1065357313%N] in
+  obs_ser TgC (mk_options EndLittle false true) t v (repeat true 88) 11 = obs_ser TgC (mk_options EndBig false false) t v (repeat false 88) 11 /\
+  obs_ser TgC (mk_options EndLittle false true) t v (repeat true 88) 11 = obs_ser TgCpp (mk_options EndAny false true) t v (repeat true 88) 11 /\
+  obs_ser TgCpp default_options t v (repeat true 88) 11 = obs_ser TgPy default_options t v [] 11 /\
+  obs_ser TgC (mk_options EndAny true false) t v (repeat true 88) 11 = Err EShape /\
+  uses_float t = true.
+Proof. vm_compute. repeat split; reflexivity. Qed.
